@@ -384,7 +384,7 @@ func parent(ch *Check, tier string, seed uint64, nshards int, verifDir, workRoot
 	for _, v := range merged.Inconclusive {
 		inconcl += v
 	}
-	distinct := len(nontrivial)
+	distinct := len(nontrivial) + int(merged.Counters["distinct_by_enumeration"])
 	if merged.Evaluations > 0 && float64(inconcl) > 0.02*float64(merged.Evaluations) {
 		machineryErrs = append(machineryErrs, fmt.Sprintf("inconclusive share too high: %d of %d: %v", inconcl, merged.Evaluations, merged.Inconclusive))
 	}
